@@ -805,6 +805,7 @@ impl Check for FireCheck {
                 let pin2 = Pat::node("p2", vec![1, 40], vec![]);
                 l = Pat::node("t", vec![], vec![(vec![], leaf), (vec![], pin1), (vec![], Pat::node("b", vec![], vec![(vec![], pin2), (vec![], l.clone())]))]);
                 run.set("sym4", 1 + sr.below(3) as i64);
+                run.set("sym4_perm", sr.below(24) as i64);
             }
             // (own stream) the left pattern is matched once (read-only) BEFORE the union that makes a child
             // symmetric: whatever the matcher remembers about an e-node must not outlive that union
@@ -965,6 +966,33 @@ impl Check for FireCheck {
         let mode = run.get("plant_mode").rem_euclid(4);
         let pv = vars.get(run.get("plant_var").rem_euclid(vars.len().max(1) as i64) as usize).copied();
         let mut root_term: Tm = li.clone();
+        // sym4 runs: the instance is planted with the arguments of the four-slot leaf permuted (the pattern's
+        // own orientation is then represented only through the symmetry asserted afterwards)
+        let sym4_leaf = Tm::leaf("p4", vec![0, 1, 40, 41]).rename_keep_binders(&rho);
+        let sym4_planted = {
+            let a = sym4_leaf.slots.clone();
+            let k = run.get("sym4_perm").rem_euclid(24) as usize;
+            let mut idx: Vec<usize> = vec![0, 1, 2, 3];
+            let mut out: Vec<S> = Vec::new();
+            let mut kk = k;
+            for f in [6usize, 2, 1, 1] {
+                let i = (kk / f).min(idx.len() - 1);
+                kk %= f;
+                out.push(a[idx.remove(i)]);
+            }
+            Tm::leaf("p4", out)
+        };
+        fn replace_subterm(t: &Tm, from: &Tm, to: &Tm) -> Tm {
+            if t == from {
+                return to.clone();
+            }
+            let mut t = t.clone();
+            for k in t.kids.iter_mut() {
+                k.t = replace_subterm(&k.t, from, to);
+            }
+            t
+        }
+        let orient = |t: &Tm| -> Tm { if run.get("sym4") != 0 { replace_subterm(t, &sym4_leaf, &sym4_planted) } else { t.clone() } };
         let plant = |s: &mut Sess<LS, ()>, root_term: &mut Tm| {
             // distractors first
             for d in 0..run.get("distractors").rem_euclid(3) {
@@ -980,8 +1008,8 @@ impl Check for FireCheck {
                     let mut sub2 = sub.clone();
                     sub2.insert(v, tau2.clone());
                     let l2 = l.inst(&sub2).rename_keep_binders(&rho);
-                    s.add_term(&l2, false);
-                    *root_term = l2.clone();
+                    s.add_term(&orient(&l2), false);
+                    *root_term = orient(&l2);
                     let a = tau.rename_keep_binders(&rho);
                     let b = tau2.rename_keep_binders(&rho);
                     s.union_terms(&a, &b, true, false);
@@ -997,8 +1025,8 @@ impl Check for FireCheck {
                             let m: BTreeMap<S, S> = [(fs[0], fs[1]), (fs[1], fs[0])].into_iter().collect();
                             let sw = tau.rename_keep_binders(&m);
                             let l3 = inst_with_override(&l, &sub, v, 1, &sw, &mut 0).rename_keep_binders(&rho);
-                            s.add_term(&l3, false);
-                            *root_term = l3.clone();
+                            s.add_term(&orient(&l3), false);
+                            *root_term = orient(&l3);
                             let a = tau.rename_keep_binders(&rho);
                             let b = sw.rename_keep_binders(&rho);
                             if run.get("prematch") != 0 {
@@ -1008,12 +1036,12 @@ impl Check for FireCheck {
                             s.union_terms(&a, &b, true, false);
                         }
                         None => {
-                            s.add_term(&li, false);
+                            s.add_term(&orient(&li), false);
                         }
                     }
                 }
                 (2, Some(v)) => {
-                    s.add_term(&li, false);
+                    s.add_term(&orient(&li), false);
                     // make a child class symmetric if the variable's term has two slots
                     let tau = sub[&v].rename_keep_binders(&rho);
                     let fs = tau.free_vec();
@@ -1028,8 +1056,11 @@ impl Check for FireCheck {
                     }
                 }
                 _ => {
-                    s.add_term(&li, false);
+                    s.add_term(&orient(&li), false);
                 }
+            }
+            if run.get("sym4") != 0 && *root_term == li {
+                *root_term = orient(&li);
             }
             if run.get("sym4") != 0 {
                 // S4 on the four-slot leaf of the left side: a 4-cycle and a transposition (in one of three orders)
